@@ -49,7 +49,7 @@ def key_labels(obs):
 
 def run(ctx):
     facts = ctx.facts()
-    thms = ctx.build_and_audit(["NutsProofs.Props.C13"])
+    thms = ctx.build_and_audit(["NutsProofs.Props.C13", "NutsProofs.Props.C13Req"])
     required = ["fact_sweep_threshold", "fact_transaction_helper_shape", "fact_rollback_deletes_created_did",
                 "fact_nuts_not_found_is_uncommitted", "fact_web_commit_cannot_fail", "fact_version_is_latest_plus_one",
                 "fact_sweep_handles_whole_transaction", "fact_deactivation_renders_as_published", "fact_rollback_loop_wiring", "fact_method_manager_wiring",
@@ -153,7 +153,7 @@ def run(ctx):
                     if len(ms) != len(set(ms)):
                         report("C13:two-dids-of-one-method", f"subject {sname} event {k}", w)
                     # O2 consecutive versions (schedules where the sweep runs before the next operation on the subject)
-                    if kind in ("plain", "quiet", "now", "mid"):
+                    if kind in ("plain", "quiet", "now", "mid", "req"):
                         for d in s["dids"]:
                             if d[2] != list(range(len(d[2]))):
                                 report("C13:versions-not-consecutive", f"subject {sname} event {k}: {d[2]}", w)
@@ -213,7 +213,9 @@ def run(ctx):
                 return len(re.findall(r"k\d+", d[3]))
             bad_eff = None
             kd, a, b2 = op["kind"], op.get("a", ""), op.get("b", "")
-            if kd in ("create", "createleg"):
+            if kd == "addkeyka":
+                kd = "addkey"
+            if kd in ("create", "createleg", "createopt"):
                 if sorted(d[0] for d in sub["dids"]) != sorted(w["methods"]) or any(d[2] != [0] or d[4] != "ok" or nkeys(d) != 1 for d in sub["dids"]):
                     bad_eff = f"create: {sub['dids']}"
             elif not sub["dids"]:
@@ -235,6 +237,47 @@ def run(ctx):
             # P4: a completed operation leaves no change record of its own behind
             if kind in ("plain", "quiet", "now") and o[1] != obs[k - 1][1]:
                 report("C13:change-records-left-by-completed-operation", f"event {k} ({kd}): {obs[k - 1][1]} change records before, {o[1]} after", w)
+        if kind == "req":
+            # request layer: Create with an option list, AddVerificationMethod with a key-agreement usage, PreferredOrder
+            pref = pref_of(w["ops"][0].get("pref", ""))
+            stats["pref:" + (",".join(pref) or "-")] += 1
+            for k, (op, o) in enumerate(zip(w["ops"], obs)):
+                # the DIDs of a subject come in the preferred order (ListDIDs, and List agrees: list=ok)
+                for sname, s in o[3].items():
+                    ms = [d[0] for d in s["dids"]]
+                    if ms != sorted(ms, key=lambda m: pref_key(pref, m)):
+                        report("C13:listdids-not-in-preferred-order", f"event {k}: subject {sname} lists {ms} with PreferredOrder {pref}", w)
+                if op["op"] != "do" or k == 0:
+                    continue
+                # a refusal (before or inside the first transaction, which is then rolled back as a whole) leaves no row behind
+                if o[0] in ("err:validation", "err:exists", "err:keyagreement", "err:nosubject") and (o[1], o[2]) != (obs[k - 1][1], obs[k - 1][2]):
+                    report("C13:refused-request-left-rows-behind", f"event {k} ({op['kind']} {op.get('opts', '')} -> {o[0]}): change records {obs[k - 1][1]} -> {o[1]}, "
+                           f"key references {obs[k - 1][2]} -> {o[2]}", w)
+                if op["kind"] == "addkeyka":
+                    stats["req:addkeyka:" + o[0]] += 1
+                if op["kind"] != "createopt":
+                    continue
+                opts = op.get("opts", [])
+                names = [x[2:] for x in opts if x.startswith("s:")]
+                shape = ",".join("s" if x.startswith("s:") else x for x in opts) or "-"
+                stats["req:opts:" + shape] += 1
+                stats["req:createopt:" + o[0]] += 1
+                illformed = [n for n in names if not re.fullmatch(r"[a-zA-Z0-9._-]+", n)]
+                if o[0] == "ok" or o[0] == "stopped":
+                    if illformed:
+                        report("C13:ill-formed-subject-name-accepted", f"event {k}: Create took the subject name {illformed[0]!r} (allowed: a-z A-Z 0-9 . _ -); names with ':' are the "
+                               f"name space of v1-named subjects", w)
+                    if any(not x.startswith("s:") and x not in ("enc", "legacy") for x in opts):
+                        report("C13:unknown-creation-option-accepted", f"event {k}: Create went ahead with options {opts}", w)
+                if o[0] == "ok":
+                    legacy = "legacy" in opts and "nuts" in w["methods"]
+                    want = op.get("u") if (legacy or not names) else names[-1]
+                    if op.get("subj") != want:
+                        report("C13:create-under-unexpected-name", f"event {k}: options {opts} created subject {op.get('subj')!r}, expected {want!r}", w)
+                    if names and not legacy:
+                        stats["req:created-under-given-name"] += 1
+                    elif legacy:
+                        stats["req:created-under-v1-name"] += 1
         if kind == "plain":
             last = obs[-1]
             if last[1] != 0:
@@ -376,6 +419,8 @@ def run(ctx):
                        "DB error / process stop at the k-th did_change_log write inside the first transaction): "
                        "a 'quiet' world (fault, early sweep, +70 s, sweep, retry, rest, sweep) and for stops a 'busy' world (sequence continues at once, sweep last), plus the fault-free world. "
                        "Every event is observed through ListDIDs / Resolve / FindServices / version numbers / did_change_log and key_reference counts / the didstore. "
+                       "Request worlds ('req'): Create with option LISTS (given names that are free / taken / ill-formed, v1 naming before and after a name, encryption key, unknown option, "
+                       "repeats; fixed + random lists; faults on a Create with options), AddVerificationMethod with a key-agreement usage, on nuts+web / web+nuts / nuts / web with 8 PreferredOrder values. "
                        "distinct_nontrivial = distinct worlds (event lists without map order)")
     ctx.cov["input_distribution"] = dict(sorted(stats.items()))
     ctx.cov["samples"] = [json.dumps(worlds[1]["ops"][:4])[:400] if len(worlds) > 1 else "", impl[worlds[1]["start"] + 2][:300] if len(worlds) > 1 else ""]
@@ -478,4 +523,21 @@ REQUIRED_DEEP = ["uniform_versions", "versions_consecutive", "versions_consecuti
                  "create_check_and_write_are_one_step", "non_atomic_create_breaks_subject_unique",
                  "first_transaction_is_atomic", "versions_without_change_records_are_never_rolled_back",
                  "change_records_name_new_versions", "subject_naming_order_independent", "naming_at_visit_depends_on_order",
-                 "sweep_ignores_young_records"]
+                 "sweep_ignores_young_records",
+                 # request layer (deepening round 2026-09-28, Props/C13Req.lean)
+                 "fact_subject_pattern", "fact_create_option_arms", "fact_create_checks_provisional_name_first",
+                 "fact_key_agreement_refused_on_web", "fact_sort_comparator",
+                 "create_request_refines", "add_key_request_refines", "create_request_reach", "add_key_request_reach",
+                 "key_agreement_on_web_changes_no_did", "create_with_encryption_key_on_web_creates_nothing",
+                 "create_request_order_independent", "ill_formed_option_refuses", "option_names_are_not_dids",
+                 "list_dids_sorted_permutation", "list_dids_order_unique"]
+
+
+def pref_of(s):
+    return ["nuts", "web"] if s == "" else ([] if s == "-" else s.split(","))
+
+
+def pref_key(pref, m):
+    """sortDIDsByMethod as documented: position in the preferred order (the last one), unlisted methods first by name"""
+    r = max([i for i, v in enumerate(pref) if v == m], default=-1)
+    return (r, m if r == -1 else "")
